@@ -3,7 +3,8 @@
    method sptensor.permute / ktensor.permute (Gen/GenSptensor4.v, Gen/GenKtensor4.v; `self` is a record of Np/NpZ3.v).
    Definitions only; Proofs/C07Gen4.v ties them to permute_sp_req / permute_k_req of Model/C07Req.v. *)
 From Coq Require Import List ZArith Bool.
-From PV Require Import Np.NpZ Np.NpZ2 Np.NpZ3 Np.NpZ3b Gen.GenUtils3b Gen.GenSptensor4 Gen.GenKtensor4 Model.C07Req Model.C07W5.
+From PV Require Import Np.NpZ Np.NpZ2 Np.NpZ3 Np.NpZ3b Np.NpZ4d Gen.GenUtils3b Gen.GenSptensor4 Gen.GenSptensor4b Gen.GenSptensor4d Gen.GenKtensor4
+  Model.Sparse Model.C07Ops Model.W4Sptensor Model.C07Req Model.C07W5.
 Import ListNotations.
 
 (* sptensor.permute looks at the dtype of the parsed order (`order.dtype == bool`, /repo 9c8fdd5): the generated method takes
@@ -18,3 +19,18 @@ Definition sptensor_permute_req (self : sptz) (x : pyshp) : res sptz :=
    Model/C07W5.v; on integer orders order_of_k = order_of *)
 Definition ktensor_permute_req (self : ktz) (x : pyshp) : res ktz :=
   match order_of_k x with Some pz => ktensor_permute self pz | None => Err end.
+
+(* the reshape REQUEST on a sparse holder entirely over generated code: the target as written is read by the generated parse_shape,
+   the operation is the generated whole method sptensor.reshape (Gen/GenSptensor4d.v, which calls the generated tt_sub2ind /
+   tt_ind2sub); old_modes as np.atleast_1d reads it (None = the default) *)
+Definition sptensor_reshape_req (self : sptz) (x : pyshp) (oldz : option vec) : res sptz :=
+  bind (parse_shape x) (fun nz => sptensor_reshape self nz oldz).
+
+(* the generated whole method sptensor.squeeze (Gen/GenSptensor4b.v; result: a tensor or a number) read as a result of
+   Model/C07Ops.v (None = the method raises: .item() on more than one stored value) *)
+Definition sptensor_squeeze_res (self : sptz) : option (C07Ops.sq_res (V:=Z) (sparse Z)) :=
+  match sptensor_squeeze self with
+  | Ok (NpZ4d.SqTensor t) => Some (C07Ops.SqT (to_Sp t))
+  | Ok (NpZ4d.SqScalar v) => Some (C07Ops.SqScalar v)
+  | Err => None
+  end.
